@@ -295,6 +295,23 @@ func (h *H) Snapshot() string {
 	return "ok"
 }
 
+// SnapshotFails: a cache snapshot attempt that fails (the compactor refuses snapshots at that
+// moment, as it does while compactions are being switched off; an I/O error has the same
+// effect). Nothing acknowledged may be affected: the attempt is retried later.
+func (h *H) SnapshotFails() string {
+	e := h.Engine()
+	if e == nil {
+		return "err"
+	}
+	e.Compactor.DisableSnapshots()
+	err := e.WriteSnapshot()
+	e.Compactor.EnableSnapshots()
+	if err == nil {
+		return "ok" // nothing to write: an empty cache
+	}
+	return "ok"
+}
+
 func (h *H) Files() []string {
 	e := h.Engine()
 	var out []string
@@ -1356,6 +1373,8 @@ func (h *H) Step(op string) (out string) {
 		return r
 	case "snap":
 		return h.Snapshot()
+	case "snapfail":
+		return h.SnapshotFails()
 	case "snaphold":
 		return h.SnapHold()
 	case "snaprelease":
